@@ -2,6 +2,8 @@ package checks
 
 import (
 	"verif/harness/internal/c09"
+	"verif/harness/internal/c17"
+	"verif/harness/internal/c11"
 	"verif/harness/internal/c18"
 	"verif/harness/internal/c19"
 	"verif/harness/internal/c20"
@@ -16,4 +18,6 @@ func RegisterAll() {
 	registerSched()
 	run.Register(c09.New())
 	run.Register(c20.New())
+	run.Register(c17.New())
+	run.Register(c11.New())
 }
